@@ -51,6 +51,7 @@ import MsVerif.Model.Encode
 import MsVerif.Spec.Script
 import MsVerif.Thm.C01
 import MsVerif.Thm.C02
+import MsVerif.Thm.C18
 
 namespace MsVerif.C07
 open MsVerif MsVerif.Pol MsVerif.Pol.Sem MsVerif.MsSem MsVerif.Lift MsVerif.SatTable
@@ -211,6 +212,22 @@ theorem lift_normal_form (env : KeyEnv) (ctx : Ctx) (ms : Ms) (p : Policy)
     (h : lift env ctx ms = .ok p) : NF p = true := by
   obtain ⟨q, _, rfl⟩ := lift_ok_raw h
   exact normalized_NF q
+
+/-- states of the lifted policy (`J liftstate`): normalising it again changes nothing, and
+restricting it to the age / lock time of the very transaction that spends keeps its meaning -/
+theorem lift_normalized_again (env : KeyEnv) (ctx : Ctx) (ms : Ms) (p : Policy)
+    (h : lift env ctx ms = .ok p) : normalized p = p :=
+  C18.normalized_fixes_normal_forms p (lift_normal_form env ctx ms p h)
+
+theorem lift_at_age_sem (env : KeyEnv) (ctx : Ctx) (ms : Ms) (p : Policy)
+    (h : lift env ctx ms = .ok p) (W : World) (ha : W.nSequence < 2147483648) :
+    holds W (atAge W.nSequence p) = sem W ms := by
+  rw [C18.at_age_holds W p ha, lift_sem env ctx ms p h W]
+
+theorem lift_at_lock_time_sem (env : KeyEnv) (ctx : Ctx) (ms : Ms) (p : Policy)
+    (h : lift env ctx ms = .ok p) (W : World) :
+    holds W (atLockTime W.nLockTime p) = sem W ms := by
+  rw [C18.at_lock_time_holds W p, lift_sem env ctx ms p h W]
 
 /-- a lifted script has no raw key hash -/
 theorem lift_ok_noRaw (env : KeyEnv) (ctx : Ctx) (ms : Ms) (p : Policy)
